@@ -220,10 +220,18 @@ func c14Check(c c14Case) [][2]string {
 func TestVerifC14(t *testing.T) {
 	r := ev.Begin("C14", "fold")
 	defer r.End(t)
-	r.Rule = "address lists = all subsets (size<=K) of an 18-address pool covering class {ULA,GUA,LL,other} x stability {flag,EUI-64,plain} x exclusion {deprecated,temporary,tentative,IPv4}, each in all permutations, x 3 static server lists, + failing source; plus all ordered pairs and triples of the pool through betterRDNSS (antisymmetry, transitivity, agreement with the ranking key); non-trivial = >=2 eligible addresses or >=1 eligible + >=1 excluded; distinct = distinct ordered list x static list"
+	r.Rule = "[histories: all sequences of 2..3 address listings from a 6-entry menu (eligible, none eligible, empty, failing) x {no static server, one} on ONE plugin value, each build compared with a fresh plugin given the same listing] address lists = all subsets (size<=K) of an 18-address pool covering class {ULA,GUA,LL,other} x stability {flag,EUI-64,plain} x exclusion {deprecated,temporary,tentative,IPv4}, each in all permutations, x 3 static server lists, + failing source; plus all ordered pairs and triples of the pool through betterRDNSS (antisymmetry, transitivity, agreement with the ranking key); non-trivial = >=2 eligible addresses or >=1 eligible + >=1 excluded; distinct = distinct ordered list x static list"
 	r.Assumptions = []string{"address source replaced by an injected function (RDNSS.Addrs)"}
 
 	if r.Replay != nil {
+		var h c14History
+		if err := json.Unmarshal(r.Replay, &h); err == nil && len(h.Steps) > 0 {
+			r.Case(ev.JSON(h), true)
+			for _, v := range c14HistoryRun(h) {
+				r.Violation(v[0], v[1], h)
+			}
+			return
+		}
 		var c c14Case
 		if err := json.Unmarshal(r.Replay, &c); err != nil {
 			t.Fatalf("bad replay: %v", err)
@@ -314,6 +322,12 @@ func TestVerifC14(t *testing.T) {
 			}
 		}
 	}
+	// Histories on ONE long-lived plugin value (the daemon builds every RA of an interface
+	// with the same plugin): all sequences of <=3 address listings from a menu that
+	// includes "no eligible address", an empty listing and a failing source; every build
+	// must equal the build of a fresh plugin given the same listing (no memory of
+	// earlier listings).
+	c14HistoryCheck(r)
 	for s := range c14Static {
 		c := c14Case{Static: s, Fail: true}
 		r.Case(ev.JSON(c), true)
@@ -322,4 +336,105 @@ func TestVerifC14(t *testing.T) {
 		}
 	}
 	r.Count("max_list_len", int64(K))
+}
+
+type c14Step struct {
+	Addrs []vfIP `json:"addrs"`
+	Fail  bool   `json:"source_fails,omitempty"`
+}
+
+type c14History struct {
+	Static int       `json:"static"`
+	Steps  []c14Step `json:"steps"`
+}
+
+func c14HistoryMenu() []c14Step {
+	byClass := func(cs ...string) (out []vfIP) {
+		for _, c := range cs {
+			for _, v := range c14Pool {
+				if v.Class == c {
+					out = append(out, v)
+				}
+			}
+		}
+		if len(out) != len(cs) {
+			panic("c14HistoryMenu: unknown class")
+		}
+		return out
+	}
+	return []c14Step{
+		{Addrs: byClass("gua-plain")},
+		{Addrs: byClass("gua-flag", "ll-plain")},
+		{Addrs: byClass("deprecated-stable-ula", "temporary-ula")}, // none eligible
+		{Addrs: nil},
+		{Fail: true},
+		{Addrs: byClass("ll-plain", "tentative-ula")},
+	}
+}
+
+func c14Build(p *RDNSS, st c14Step) (out string) {
+	p.Addrs = func() ([]system.IP, error) {
+		if st.Fail {
+			return nil, errors.New("verif: injected address listing failure")
+		}
+		return vfIPs(st.Addrs), nil
+	}
+	defer func() {
+		if pv := recover(); pv != nil {
+			out = fmt.Sprintf("panic: %v", pv)
+		}
+	}()
+	ra := &ndp.RouterAdvertisement{}
+	if err := p.Apply(ra); err != nil {
+		return "error"
+	}
+	for _, o := range ra.Options {
+		if d, ok := o.(*ndp.RecursiveDNSServer); ok {
+			out += fmt.Sprintf("%+v;", *d)
+		} else {
+			out += fmt.Sprintf("%T;", o)
+		}
+	}
+	return out
+}
+
+func c14HistoryRun(h c14History) [][2]string {
+	mk := func() *RDNSS {
+		p := &RDNSS{Auto: true, Lifetime: 1800 * time.Second}
+		for _, s := range c14Static[h.Static] {
+			p.Servers = append(p.Servers, netip.MustParseAddr(s))
+		}
+		return p
+	}
+	long := mk()
+	for i, st := range h.Steps {
+		got, want := c14Build(long, st), c14Build(mk(), st)
+		if got != want {
+			return [][2]string{{"C14:history-dependent", fmt.Sprintf("history %s: build %d on the long-lived plugin gives %s, a fresh plugin given the same listing gives %s", ev.JSON(h), i, got, want)}}
+		}
+	}
+	return nil
+}
+
+func c14HistoryCheck(r *ev.Run) {
+	menu := c14HistoryMenu()
+	n := int64(0)
+	for _, static := range []int{0, 1} {
+		enum.Sequences(len(menu), 3, func(seq []int) bool {
+			if len(seq) < 2 {
+				return true
+			}
+			h := c14History{Static: static}
+			for _, i := range seq {
+				h.Steps = append(h.Steps, menu[i])
+			}
+			n++
+			r.Case(ev.JSON(h), true)
+			for _, v := range c14HistoryRun(h) {
+				r.Violation(v[0], v[1], h)
+			}
+			return true
+		})
+	}
+	r.Count("histories_on_one_plugin", n)
 }
